@@ -410,7 +410,8 @@ def run(tape, scenario):
     async def single_process(loop):
         ec = make_ec(0)
         if parallel:
-            ec.mbx_lock_file = LockFile("/run/ebpf/sim0", *ec.terminal_addr_range)
+            ec.mbx_lock_file = LockFile("/run/ebpf/sim0", ec.terminal_addr_range[0],
+                                          ec.terminal_addr_range[1] + 1)   # as ParallelEtherCat.run makes it
         await EtherCat.connect(ec)
         tobj = [instrument(preinit(ec, st)) for st, _ in sterms]
         tasks = [asyncio.ensure_future(user(u, tobj[user_term[u]], nops[u]))
@@ -426,7 +427,8 @@ def run(tape, scenario):
             try:
                 await asyncio.sleep([0, 0, 30e-6, 200e-6][tape.draw("c15/start", 4)])
                 ec = make_ec(pno)
-                ec.mbx_lock_file = LockFile("/run/ebpf/sim0", *ec.terminal_addr_range)
+                ec.mbx_lock_file = LockFile("/run/ebpf/sim0", ec.terminal_addr_range[0],
+                                          ec.terminal_addr_range[1] + 1)   # as ParallelEtherCat.run makes it
                 await EtherCat.connect(ec)
                 if gentle:
                     tobj = await asyncio.wait_for(attach(pno, ec), 8)
